@@ -536,7 +536,7 @@ class Run(object):
       else:
         eff = {"op": "y0", "was": "release"}
         yv = 0
-    elif k == "badop" and "/" not in tid:
+    elif k == "badop":
       # a blocking operation whose execute() raises: the scheduler reports and de-schedules the task.
       # how="release-unheld": recoco's own Lock.release() on a lock nobody holds (RuntimeError in _do_release)
       l = op.get("lock", 0) % len(self.locks)
